@@ -390,9 +390,11 @@ impl MultiState {
     }
 
     pub(crate) fn suspend<F: FnOnce() -> R, R>(&mut self, f: F, now: Instant) -> R {
-        self.clear(now).unwrap();
+        // A failing terminal must not panic here: the state lock is held (it would be poisoned
+        // for every bar of the `MultiProgress`) and `f` has to run in any case.
+        let _ = self.clear(now);
         let ret = f();
-        self.draw(true, None, Instant::now()).unwrap();
+        let _ = self.draw(true, None, Instant::now());
         ret
     }
 
